@@ -28,9 +28,9 @@ func init() {
 	register(&Prop{
 		ID:       "C24",
 		Title:    "Constant-near shapes are placed outside the diagram on the requested side",
-		Patterns: []string{"./d2layouts/d2near", "./d2ast", "./d2graph"},
+		Patterns: []string{"./d2layouts/d2near", "./d2layouts", "./d2ast", "./d2graph"},
 		Explanation: "Decides: (1) the near sets partition d2ast.NearConstantsArray and place()'s switch has a case for every constant; (2) by symbolic linear arithmetic over the expressions assigned in each case (atoms tl.X, tl.Y, br.X, br.Y, obj.Width, obj.Height, pad; w and h substituted from their definitions): a '…-left' case gives tl.X − (x + Width) = pad, a '…-right' case x − br.X = pad, a 'top-…' case tl.Y − (y + Height) = pad, a 'bottom-…' case y − br.Y = pad, with pad a positive constant, and a '…-center' case puts the shape's centre on the box's centre along the other axis; " +
-			"(3) the outside-label adjustments only move the shape further out on its own side (sign and axis of each adjustment agree with the branch condition); (4) centre sets are placed before the corner set; (5) the bounding box used as reference resets each ±Inf accumulator pair unconditionally (a top-level test per axis) before it is returned.",
+			"(2b) every test for the default graph type in the nested-layout driver also excludes constant-near graphs, so a near container is never laid out as an ordinary nested graph or grid cell; (3) the outside-label adjustments only move the shape further out on its own side (sign and axis of each adjustment agree with the branch condition); (4) centre sets are placed before the corner set; (5) the bounding box used as reference resets each ±Inf accumulator pair unconditionally (a top-level test per axis) before it is returned.",
 		NotCovered: "the bounding box contents themselves, overlaps among several near shapes",
 		Technique:  "static analysis: set partition, switch exhaustiveness, linear normal-form arithmetic over the case expressions (abstract interpretation in the affine domain)",
 		Run:        runC24,
@@ -535,6 +535,52 @@ func runC24(c *core.Check) {
 	c.Rule("C24.label-adjust", "outside-label adjustments move the shape further out on its own side, along the matching axis")
 	c.Rule("C24.order", "centre sets are placed before the corner set")
 	c.Rule("C24.inf-reset", "boundingBox resets every ±Inf accumulator pair with a top-level test before returning")
+	// a constant-near graph is never laid out as an ordinary nested graph: every test for the default graph type in
+	// the nested-layout driver also excludes constant nears (directly or through GraphInfo.isDefault)
+	c.Rule("C24.near-not-default", "tests for the default graph type exclude constant-near graphs")
+	if lpk := c.P.Pkg("d2layouts"); lpk != nil {
+		nd := 0
+		for _, fi := range c.P.Funcs(lpk) {
+			info := fi.Pkg.TypesInfo
+			var fl *core.Flow
+			ast.Inspect(fi.Decl.Body, func(n ast.Node) bool {
+				be, ok := n.(*ast.BinaryExpr)
+				if !ok || be.Op != token.EQL || !strings.HasSuffix(exprStr(be.X), ".DiagramType") || exprStr(be.Y) != "DefaultGraphType" {
+					return true
+				}
+				nd++
+				if fl == nil {
+					fl = core.NewFlow(fi.Pkg, fi.Decl.Body)
+				}
+				recv := strings.TrimSuffix(exprStr(be.X), ".DiagramType")
+				okn := false
+				// same conjunction
+				ast.Inspect(fi.Decl.Body, func(m ast.Node) bool {
+					if conj, ok := m.(*ast.BinaryExpr); ok && conj.Op == token.LAND && conj.Pos() <= be.Pos() && be.End() <= conj.End() {
+						if strings.Contains(exprStr(conj), "!"+recv+".IsConstantNear") {
+							okn = true
+						}
+					}
+					return true
+				})
+				for _, g := range fl.GuardsOfNode(be) {
+					for _, a := range g.Atoms() {
+						if !a.True && exprStr(a.Cond) == recv+".IsConstantNear" {
+							okn = true
+						}
+					}
+				}
+				_ = info
+				c.Decide(okn, "C24.near-not-default", "default-test:"+fname(fi), be.Pos(), "conjoined with !"+recv+".IsConstantNear", "a nested graph is treated as an ordinary (default) graph without excluding constant-near graphs: a near container inside a grid is laid out as a grid cell and never placed on its side of the diagram")
+				return true
+			})
+		}
+		if nd == 0 {
+			c.Fail("C24.near-not-default", "default-test:none", token.NoPos, "no test for DefaultGraphType found in d2layouts")
+		}
+	} else {
+		c.Broken("d2layouts not loaded")
+	}
 	all := checkNearSets(c, "C24.sets")
 	pl := mustFunc(c, "d2layouts/d2near", "", "place")
 	if pl == nil || all == nil {
